@@ -67,7 +67,7 @@ def run_one(B, shim, wd, rq, bursts, exitcode=0, sig=0, pad=0, timeout=60, extra
               'X-ECHS-MAIL-RUN:0', 'X-ECHS-MAIL-OUT:1', 'X-ECHS-MAIL-ERR:1', 'ORGANIZER:echse', 'ATTENDEE:root', 'END:VTODO']
     L += ['BEGIN:VTODO', 'UID:job-%s' % os.path.basename(d), 'SUMMARY:. %s/job.sh' % d,
          'X-ECHS-SETUID:%d' % os.getuid(), 'X-ECHS-SETGID:%d' % os.getgid(), 'X-ECHS-SHELL:' + sh, 'LOCATION:' + d + '/cwd',
-         'X-ECHS-UMASK:0%o' % rq['umask'], 'X-ECHS-MAIL-RUN:0', 'X-ECHS-MAIL-OUT:%d' % int(rq['mo']), 'X-ECHS-MAIL-ERR:%d' % int(rq['me']),
+         ] + (['X-ECHS-UMASK:0%o' % rq['umask']] if not rq.get('noumask') else []) + ['X-ECHS-MAIL-RUN:0', 'X-ECHS-MAIL-OUT:%d' % int(rq['mo']), 'X-ECHS-MAIL-ERR:%d' % int(rq['me']),
          'X-ECHS-IFILE:' + d + '/in.txt']
     files = {'F1': d + '/f1.txt', 'F2': d + '/f2.txt'}
     if rq['so']: L.append('X-ECHS-OFILE:' + files[rq['so']])
